@@ -350,7 +350,8 @@ class RuntimeContext:
         if self.context:
             self.routes = list(self.context.routes)
 
-        if route:
+        if route is not None:
+            # index 0 / key '' are routes too (only a context without route opens a new nesting level)
             self.routes.append(route)
         else:
             self.depth += 1
